@@ -6,8 +6,9 @@
    affine map.  "Inside the source grid" = inside the hull of the pixel centres, [inside lmax pmax L P]. *)
 From Coq Require Import Reals ZArith Lra Lia Bool List PrimFloat.
 From Flocq Require Import Zaux Raux Generic_fmt Round_NE.
+From PR Require Import Model.Grid Model.CropBase Model.Crop Proofs.Grid_real Proofs.C11_crop.
 From PR Require Import Base.ZX Base.Num Base.RNum Base.F64 Base.Slice Model.Partition Model.Blockwise Model.Gradient
-     Gen.GenC09 Proofs.C09_newton Proofs.C09_scan Proofs.C09_kernels Proofs.C09_blocks Proofs.C09_main Proofs.C09_gen.
+     Gen.GenC09 Proofs.C09_newton Proofs.C09_scan Proofs.C09_kernels Proofs.C09_blocks Proofs.C09_main Proofs.C09_gen Proofs.C09_c11.
 Import ListNotations.
 Open Scope R_scope.
 
@@ -18,6 +19,11 @@ Theorem C09_kernels_are_the_source : forall (T : Type) (OP : ops T) (data : Z ->
   gen_bil OP data l0 p0 dl dp lmax pmax = bil_kern OP data lmax pmax l0 p0 dl dp /\
   gen_indices_xy OP data l0 p0 dl dp lmax pmax = idx_kern OP l0 p0 dl dp.
 Proof. intros. split; [apply gen_nn_eq | split; [apply gen_bil_eq | apply gen_indices_xy_eq]]. Qed.
+(* the tail of gradient_resampler_indices (`indices_xy[0] += x_slice.start; indices_xy[1] += y_slice.start`), regenerated likewise *)
+Theorem C09_indices_offset_is_the_source : forall (T : Type) (OP : ops T) ys xs (xy : T * T),
+  gen_indices_offset OP (ys, xs) xy = add_offset OP ys xs xy.
+Proof. intros. apply gen_indices_offset_eq. Qed.
+Print Assumptions C09_indices_offset_is_the_source.
 Print Assumptions C09_kernels_are_the_source.
 (* ... and the per-pixel interpolators of the model are `_get_mask_and_adjusted_indices`, `block_nn_interpolator`,
    `block_bilinear_interpolator` of gradient/__init__.py as they stand (regenerated likewise), over the reals *)
@@ -27,6 +33,14 @@ Theorem C09_block_cores_are_the_source : forall (Dc : Z -> Z -> R) ny nx x y fil
   gen_block_bil RO (mk_arr2 (ny, nx) Dc) (x, y) fill (ys, xs) = block_bil RO Dc ny nx (x - IZR (sstart xs)) (y - IZR (sstart ys)).
 Proof. intros. split; [apply gen_mask_adjust_RO | split; [apply gen_block_nn_RO | apply gen_block_bil_RO]]. Qed.
 Print Assumptions C09_block_cores_are_the_source.
+
+(* the gradient arrays the code hands to the search (np.gradient of the coordinate arrays of the full or cropped area) are,
+   everywhere on a grid of at least 2x2 pixels, ends included, the constant slopes the theorems below are stated with *)
+Theorem C09_np_gradient_of_affine : forall x0 y0 a b c e n_l n_p l p, (2 <= n_l)%Z -> (2 <= n_p)%Z -> (0 <= l < n_l)%Z -> (0 <= p < n_p)%Z ->
+  let F := fields_of_coords RO n_l n_p (f_sx (affF x0 y0 a b c e)) (f_sy (affF x0 y0 a b c e)) in
+  f_xl F l p = a /\ f_xp F l p = b /\ f_yl F l p = c /\ f_yp F l p = e.
+Proof. exact fields_of_affine_coords. Qed.
+Print Assumptions C09_np_gradient_of_affine.
 
 (* [exactL], [exactP] really are the position: the affine map takes them back to the point *)
 Theorem C09_exact_position_is_inverse : forall x0 y0 a b c e, c * b - e * a <> 0 -> forall tx ty,
@@ -201,6 +215,67 @@ Proof.
   split; [exact E1|]. unfold Fc. rewrite E1, E2, Sr, Sc. reflexivity.
 Qed.
 Print Assumptions C09_chunk_invariant_nn_if.
+
+(* ---------------- composition with property C11: no hypothesis of C09's own is left ----------------
+   For an AREA source the coordinate field IS the affine grid map of the area and the exact position IS the area's own
+   fractional array index (Model/Grid.v, the definitions C01/C11/C18 prove things about) ... *)
+Theorem C09_area_source_is_affine : forall a : area R, wf_area a ->
+  (forall l p, f_sx (area_fields a) l p = proj_x RO a p /\ f_sy (area_fields a) l p = proj_y RO a l) /\
+  (forall tx ty, exactP (ax0 a) (ay0 a) 0 (dxR a) (- dyR a) 0 tx ty = arr_of_proj_x RO a tx /\
+                 exactL (ax0 a) (ay0 a) 0 (dxR a) (- dyR a) 0 tx ty = arr_of_proj_y RO a ty) /\
+  - dyR a * dxR a - 0 * 0 <> 0.
+Proof.
+  intros a H. split; [intros; apply area_fields_are_proj_coords | split; [intros; apply exact_is_array_index; exact H | apply area_det; exact H]].
+Qed.
+Print Assumptions C09_area_source_is_affine.
+
+(* ... and the crop of a target block is AreaSlicer's arithmetic [crop_slices] (Model/Crop.v) applied to shapely's bounds of the
+   block's buffered polygon.  From C11_bounds_to_slices_sound: if the bounds contain the source-CRS image of every pixel centre of
+   the block (C11's named hypothesis H_poly, per block) and shapely's validity/intersection bits are true for a block that has a
+   pixel on the grid (taken as true in C11 too), then H_crop holds for the block *)
+Theorem C09_H_crop_from_C11 : forall (a : area R) valid inter bbox (dst : Z -> Z -> R * R) rs cs, wf_area a ->
+  H_poly_block bbox dst rs cs -> H_bits_block a valid inter dst rs cs ->
+  H_crop_block (ax0 a) (ay0 a) 0 (dxR a) (- dyR a) 0 (height a) (width a) dst (c11_crop a valid inter bbox) rs cs.
+Proof. intros. apply H_crop_from_C11; assumption. Qed.
+Print Assumptions C09_H_crop_from_C11.
+
+(* chunk invariance for area sources under C11's hypothesis only (bilinear) *)
+Theorem C09_chunk_invariant : forall (a : area R), wf_area a -> (height a <= 2 ^ 31)%Z -> (width a <= 2 ^ 31)%Z ->
+  forall (D : Z -> Z -> R) (dst : Z -> Z -> R * R) valid inter bbox rows cols rows' cols',
+    Forall (fun x => (0 <= x)%Z) rows -> Forall (fun x => (0 <= x)%Z) cols ->
+    Forall (fun x => (0 <= x)%Z) rows' -> Forall (fun x => (0 <= x)%Z) cols' ->
+    sumZ rows = sumZ rows' -> sumZ cols = sumZ cols' ->
+    H_poly_blocks a valid inter bbox dst rows cols -> H_poly_blocks a valid inter bbox dst rows' cols' ->
+    let Fc := fun ys xs : pslice => shift_fields (area_fields a) (sstart ys) (sstart xs) in
+    let crop := c11_crop a valid inter bbox in
+    resample RO Fc crop dst D (block_bil RO) rows cols
+    = tab (fun i j =>
+             let L := arr_of_proj_y RO a (snd (dst i j)) in let P := arr_of_proj_x RO a (fst (dst i j)) in
+             if inside (height a - 1) (width a - 1) L P then Some (bilin4 D (Zfloor L) (Zfloor P) L P) else None)
+          0 (sumZ rows) 0 (sumZ cols)
+    /\ resample RO Fc crop dst D (block_bil RO) rows cols = resample RO Fc crop dst D (block_bil RO) rows' cols'.
+Proof. exact chunk_invariant_from_C11. Qed.
+Print Assumptions C09_chunk_invariant.
+
+(* ... and for nn, off ties *)
+Theorem C09_chunk_invariant_nn : forall (a : area R), wf_area a -> (height a <= 2 ^ 31)%Z -> (width a <= 2 ^ 31)%Z ->
+  forall (D : Z -> Z -> R) (dst : Z -> Z -> R * R) valid inter bbox rows cols rows' cols',
+    Forall (fun x => (0 <= x)%Z) rows -> Forall (fun x => (0 <= x)%Z) cols ->
+    Forall (fun x => (0 <= x)%Z) rows' -> Forall (fun x => (0 <= x)%Z) cols' ->
+    sumZ rows = sumZ rows' -> sumZ cols = sumZ cols' ->
+    H_poly_blocks a valid inter bbox dst rows cols -> H_poly_blocks a valid inter bbox dst rows' cols' ->
+    H_notie (ax0 a) (ay0 a) 0 (dxR a) (- dyR a) 0 (height a) (width a) dst rows cols ->
+    H_notie (ax0 a) (ay0 a) 0 (dxR a) (- dyR a) 0 (height a) (width a) dst rows' cols' ->
+    let Fc := fun ys xs : pslice => shift_fields (area_fields a) (sstart ys) (sstart xs) in
+    let crop := c11_crop a valid inter bbox in
+    resample RO Fc crop dst D (block_nn RO) rows cols = resample RO Fc crop dst D (block_nn RO) rows' cols'.
+Proof. exact chunk_invariant_nn_from_C11. Qed.
+Print Assumptions C09_chunk_invariant_nn.
+(* H_poly_blocks is satisfiable: a bbox that is the whole plane region around a 4x4 unit-pixel source, target = the source grid *)
+Example C09_H_poly_blocks_ex : forall rows cols,
+  H_poly_blocks unit4 (fun _ _ => true) (fun _ _ => true) (fun _ _ => (0, 0, 4, 4))
+                (fun i j => (IZR (Z.max 0 (Z.min 3 j)) + / 2, 4 - IZR (Z.max 0 (Z.min 3 i)) - / 2)) rows cols.
+Proof. exact H_poly_blocks_example. Qed.
 
 (* H_crop is satisfiable for every decomposition: the crop that always returns the whole source *)
 Example C09_H_crop_ex : forall x0 y0 a b c e n_l n_p (dst : Z -> Z -> R * R) rows cols, (1 <= n_l)%Z -> (1 <= n_p)%Z ->
